@@ -9,7 +9,7 @@ EXPLANATION = ("Decides on the MIR of gix-lock and gix-tempfile: (1) no function
                "argument derives from the resource's own extension and the DOT_LOCK_SUFFIX item; resource_path() is strip_lock_suffix(lock_path); "
                "(2) Handle::at_path asks the tempfile builder for zero random bytes (exact path) and creates through tempfile_in (exclusive create "
                "is the tempfile crate's contract); (3) Drop for Handle<T> removes the registry entry and reaches AutoRemove::execute_best_effort -> "
-               "empty_upward_until_boundary; File/Marker commit persist onto resource_path(). Cross-process exclusivity and schedules are not decided.")
+               "empty_upward_until_boundary; File/Marker commit persist onto resource_path(). strip_lock_suffix removes the suffix once (no trim_*_matches/replace) and demands UTF-8 of the extension only; a boundary handed to the cleanup derives from current_dir()/absolute() somewhere in gix-tempfile. Cross-process exclusivity and schedules are not decided.")
 LOSSY = r"(::to_string_lossy$|::from_utf8_lossy$|::into_string_lossy$|::from_utf8_lossy_owned$)"
 
 
